@@ -74,6 +74,7 @@ class C13(Prop):
             'following leaf), each outermost error node has an issue on the line of the following leaf (or, V>=3.9 with an '
             'fstring_start child, on its own start line), tree with error => list non-empty, second call identical. '
             'Non-trivial: tree has an error node/leaf or >=1 issue.')
+    fuzz = True       # thorough/quick runs add an atheris sub-tier with this check as the in-target oracle
     budgets = {'quick': 24000, 'thorough': 640000}
 
     def strategy(self, tier):
